@@ -15,7 +15,7 @@ namespace cntgs::detail
 template <class T, std::size_t N>
 struct Array
 {
-    std::array<T, N> array_;
+    std::array<T, N> array_{};
 };
 
 template <class T>
